@@ -192,6 +192,18 @@ func (e *vsEngine) vsState() (string, int, []int, error) {
 	return gs, out, ids, nil
 }
 
+// callbacksRegistered: does any session of the real safepoint controller still have a CommandEndCallback?
+func (e *vsEngine) callbacksRegistered() bool {
+	m := field(e.ctrl, "sessions")
+	it := m.MapRange()
+	for it.Next() {
+		if !it.Value().Elem().FieldByName("CommandEndCallback").IsNil() {
+			return true
+		}
+	}
+	return false
+}
+
 func nbsGC(s chunks.ChunkStoreGarbageCollector) (bool, int) {
 	n := s.(*nbs.NomsBlockStore)
 	return field(n, "gcInProgress").Bool(), int(field(n, "gcOutstandingReads").Int())
@@ -777,7 +789,18 @@ func (e *vsEngine) step(st map[string]any) common.Result {
 			return e.fail("the collector is not parked", "parked", e.g.At("gc"))
 		}
 	case "CancelSafepoint":
-		// the deferred CancelSafepoint runs by itself; the collector then stops at EndGC
+		// the deferred CancelSafepoint runs by itself (dropping the registered CommandEnd callbacks at once); the collector
+		// then waits for started visits and stops at EndGC. Wait until the callbacks are gone before the next model step.
+		deadline := time.Now().Add(stepTimeout)
+		for {
+			if e.g.At("gc") == "gc.end" || !e.callbacksRegistered() {
+				break
+			}
+			if time.Now().After(deadline) {
+				return e.fail("timeout: CancelSafepoint did not drop the CommandEnd callbacks", "dropped", "still registered")
+			}
+			time.Sleep(2 * time.Millisecond)
+		}
 	case "FinishCancel":
 		return e.gcEnd(true)
 	default:
